@@ -30,7 +30,7 @@ insideLoopBody = true precedes that load in the order - so a later store of fals
 only allows once the body call is over or was never made - or it follows the load, hence follows stop()'s store,
 and the loop's subsequent load of shouldBeRunning returns false (until start() stores true again).
 """
-from rkstatic.x_sync import Sync, LockState, SEQ_CST, ORDER_NAMES, CALLS, last
+from rkstatic.x_sync import Sync, LockState, Inliner, Hooks, SEQ_CST, ORDER_NAMES, CALLS, last
 
 LEVEL = 'proof'
 EXPLANATION = (
@@ -67,13 +67,25 @@ def oname(o):
 class Found:
     """violations / undecided constructs collected during one exploration (de-duplicated by key)"""
 
-    def __init__(self):
+    def __init__(self, inl=None):
         self.v = {}
         self.u = {}
+        self.inl = inl
 
-    def viol(self, rule, fn, detail, why, node, at=None):
+    def here(self):
+        """(position in the top-level function, helper call chain) of the element being explored"""
+        if self.inl is not None and self.inl.stack:
+            return self.inl.at, self.inl.chain()
+        return None, []
+
+    def viol(self, rule, fn, detail, why, node, at=None, where=None):
         key = '%s|%s|%s|%s' % (rule, FILE, fn, detail)
-        self.v.setdefault(key, (rule, why, node, at))
+        chain = []
+        if where is not None:
+            at, chain = where
+        elif at is None:
+            at, chain = self.here()
+        self.v.setdefault(key, (rule, why, node, at, chain))
 
     def und(self, rule, why, node):
         self.u.setdefault((rule, why), node)
@@ -93,13 +105,14 @@ def emit(ctx, tu, g, res, found, instance, rules_ok, loc, okmsg):
     """turn collected findings of one exploration into obligations; one ok line per rule that stayed clean"""
     bad = set()
     und_rules = {rule for (rule, _why) in found.u}
-    for key, (rule, why, node, at) in found.v.items():
+    for key, (rule, why, node, at, chain) in found.v.items():
         if rule in und_rules:
             continue        # an unmodelled construct on the same function: the instance is undecided, not violated
         bad.add(rule)
         path = []
         if at is not None and res is not None:
             path = render_path(tu, g, res.path_to(*at))
+        path += chain
         if node is not None:
             path.append('%s: %s' % (tu.loc(node), tu.show(node)))
         ctx.violation(rule, instance, why, tu.loc(node) if node is not None else loc, key=key, path=path)
@@ -116,6 +129,10 @@ class Env:
         self.ctx = ctx
         self.tu = tu
         self.sy = Sync(tu)
+        # calls to functions defined in AsyncLoop.h itself (members, nested-struct members, static helpers, closures that
+        # are invoked directly) are followed; everything else (the user body, std::, the tasking layer) is a plain call
+        self.inl = Inliner(tu, lambda cf: tu.fn_file(cf) == FILE)
+        self.fids = set()         # declarations that denote the user functor (constructor parameter + helper parameters)
         self.enabling = set()     # (field, value) stores that can turn a wait predicate true
         self.counts = {R1: 0, R2: 0, R3: 0, R4: 0}
         self.launch_kinds = set()
@@ -163,13 +180,41 @@ def find_anchors(E):
     return True
 
 
-def refs_decl(tu, e, decl_id):
+def refs_decl(tu, e, decl_ids):
+    if not isinstance(decl_ids, (set, frozenset)):
+        decl_ids = {decl_ids}
     e = tu.strip(e, casts=True)
-    return e is not None and e.get('kind') == 'DeclRefExpr' and e.get('referencedDecl', {}).get('id') == decl_id
+    return e is not None and e.get('kind') == 'DeclRefExpr' and e.get('referencedDecl', {}).get('id') in decl_ids
+
+
+class C03Hooks(Hooks):
+    """call hooks of the inlining exploration: bind helper parameters that receive the user functor; hand constant
+    boolean return values of helpers to the rule (bind_ret); unfollowable call chains make the instance undecided"""
+
+    def __init__(self, E, found, rule, bind_ret=None):
+        self.E, self.found, self.rule, self.bind_ret = E, found, rule, bind_ret
+
+    def pre_call(self, n, cf, args, st):
+        for p, a in zip(cf.get('params', []), args):
+            if refs_decl(self.E.tu, self.E.sy.unwrap_move(a), self.E.fids):
+                self.E.fids.add(p['id'])
+        return [st]
+
+    def post_call(self, n, cf, st, rv):
+        if self.bind_ret is not None and rv is not None:
+            return [self.bind_ret(st, n['id'], rv)]
+        return [st]
+
+    def ret_value(self, e, st):
+        return self.E.sy.const_bool(e)
+
+    def problem(self, msg, n):
+        self.found.und(self.rule, msg, n)
 
 
 def is_body_call(tu, n, fparam):
-    """a call that receives the user functor (constructor parameter, captured) as callee object or as an argument"""
+    """a call that receives the user functor (constructor parameter, captured, or a helper parameter bound to it) as
+    callee object or as an argument (calls to helpers defined in AsyncLoop.h are followed before this is asked)"""
     if n.get('kind') not in CALLS:
         return False
     for k in tu.kids(n):
@@ -357,32 +402,37 @@ def atom_token(tu, atom):
 def check_loop_closure(E, f, lam, op):
     ctx, tu, sy = E.ctx, E.tu, E.sy
     g = tu.cfg(op)
-    fparam = f['params'][0]['id']
-    found = Found()
+    E.fids = {f['params'][0]['id']}
+    fparam = E.fids
+    found = Found(E.inl)
     cur = {}
     calls = []
     waits = []
 
-    # state: (pub, chk, toks, locks, known, tested, bvals)   bvals: truth of local bools already branched on;  chk: 0 none / 1 seq_cst re-check / 2 re-check with a weaker order
+    # state: (pub, chk, toks, locks, known, obs, bvals)
+    #   obs: (flag, value) pairs observed while runningMutex has been held without interruption; bvals: truth of local bools
+    #   (and of helper calls with a constant result) already branched on; toks: (node-or-variable, strength) for loads of
+    #   shouldBeRunning made after the publication, (node-or-variable, 'o', flag) for loads made under the mutex;  chk: 0 none / 1 seq_cst re-check / 2 re-check with a weaker order
     def transfer(blk, i, e, st):
         if i == 0:
             cur['at'] = (blk.id, st)
-        pub, chk, toks, locks, known, tested, bvals = st
+        pub, chk, toks, locks, known, obs, bvals = st
         ev = sy.event(e)
         n = tu.node(e[1]) if e[0] == 'S' else None
         if ev is None:
             if n is not None:
                 toks = local_copy(tu, n, toks)
                 bvals = bvals_kill(tu, n, bvals)
-            return [(pub, chk, toks, locks, known, tested, bvals)]
+            return [(pub, chk, toks, locks, known, obs, bvals)]
         kind = ev[0]
         if kind in ('locks', 'unlock-scope', 'lk-unlock', 'lk-lock', 'm-lock', 'm-unlock', 'lk-other', 'm-other'):
             locks2, known, prob = LockState.apply(locks, known, ev)
             if prob:
                 found.und(R3, prob, n)
             if LockState.holds(locks2, MTX) != LockState.holds(locks, MTX):
-                tested = False
-            return [(pub, chk, toks, locks2, known, tested, bvals)]
+                obs = frozenset()
+                toks = frozenset(t for t in toks if t[1] != 'o')
+            return [(pub, chk, toks, locks2, known, obs, bvals)]
         if kind == 'store':
             _k, fld, val, order, node = ev
             if fld == INSIDE:
@@ -390,12 +440,12 @@ def check_loop_closure(E, f, lam, op):
                 for v in ((True, False) if val is None else (val,)):
                     if v and order != SEQ_CST:
                         found.viol(R1, CLOSURE, 'weak-memory-order', 'insideLoopBody is published with %s; the handshake with '
-                                   'stop() needs a seq_cst store' % oname(order), node, cur.get('at'))
+                                   'stop() needs a seq_cst store' % oname(order), node)
                     if not v and order not in (3, 4, 5):
                         found.viol(R1, CLOSURE, 'weak-memory-order', 'insideLoopBody is retracted with %s; the end of the body '
-                                   'must be released to the thread that returns from stop()' % oname(order), node, cur.get('at'))
+                                   'must be released to the thread that returns from stop()' % oname(order), node)
                     # pub: 0 retracted, 1 published, 2 published inside a critical section (mutex-based variant)
-                    outs.append(((2 if locks else 1) if v else 0, 0, frozenset(), locks, known, tested, bvals))
+                    outs.append(((2 if locks else 1) if v else 0, 0, frozenset(), locks, known, obs, bvals))
                 if val is None:
                     found.und(R1, 'store of a non-constant value to insideLoopBody', node)
                 return outs
@@ -407,22 +457,23 @@ def check_loop_closure(E, f, lam, op):
             if fld == RUN and pub:
                 toks = frozenset(set(toks) | {(node['id'], 1 if order == SEQ_CST else 2)})
             if fld in (RUN, ALIVE) and LockState.holds(locks, MTX):
-                tested = True
-            return [(pub, chk, toks, locks, known, tested, bvals)]
+                toks = frozenset(set(toks) | {(node['id'], 'o', fld)})
+            return [(pub, chk, toks, locks, known, obs, bvals)]
         if kind == 'rmw':
             if ev[1] in FLAGS:
                 found.und(R1, 'read-modify-write %s on %s: not modelled' % (ev[2], ev[1][1]), ev[3])
             return [st]
         if kind == 'wait':
-            waits.append((ev, st, cur.get('at')))
-            return [st]
+            waits.append((ev, st, found.here()))
+            # the mutex is released while blocked: what was observed before is stale afterwards
+            return [(pub, chk, frozenset(t for t in toks if t[1] != 'o'), locks, known, frozenset(), bvals)]
         if kind == 'call':
             node = ev[2]
             if is_body_call(tu, node, fparam):
                 if locks:
                     found.und(R1, 'the user body is called while a mutex is held: a different stop protocol than the two-flag '
                               'handshake, not modelled', node)
-                calls.append((node, pub, chk, cur.get('at')))
+                calls.append((node, pub, chk, found.here()))
                 return [st]
             cf = tu.callee_fn(node)
             if cf is not None and cf.get('rec') == LOOP:
@@ -434,34 +485,41 @@ def check_loop_closure(E, f, lam, op):
         tid = atom_token(tu, atom)
         if tid is None:
             return [st]
-        pub, chk, toks, locks, known, tested, bvals = st
+        pub, chk, toks, locks, known, obs, bvals = st
+        seen = dict(bvals).get(tid)
+        if seen is not None and seen != truth:
+            return []         # the same unchanged local / the helper's constant result was already found to have the other value
         if atom.get('kind') == 'DeclRefExpr':
-            seen = dict(bvals).get(tid)
-            if seen is not None and seen != truth:
-                return []                       # the same unchanged local was already found to have the other value
             bvals = frozenset(set(bvals) | {(tid, truth)})
-        if truth:
-            for t in toks:
-                if t[0] == tid:
-                    chk = 1 if t[1] == 1 else (chk or 2)
-        return [(pub, chk, toks, locks, known, tested, bvals)]
+        for t in toks:
+            if t[0] != tid:
+                continue
+            if t[1] == 'o':
+                obs = frozenset({p for p in obs if p[0] != t[2]} | {(t[2], truth)})
+            elif truth:
+                chk = 1 if t[1] == 1 else (chk or 2)
+        return [(pub, chk, toks, locks, known, obs, bvals)]
 
-    res = g.explore([(0, 0, frozenset(), frozenset(), frozenset(), False, frozenset())], transfer, refine)
+    def bind_ret(st, call_id, rv):
+        return st[:6] + (frozenset(set(st[6]) | {(call_id, rv)}),)
+
+    res, _outs = E.inl.explore(op, [(0, 0, frozenset(), frozenset(), frozenset(), frozenset(), frozenset())], transfer, refine,
+                               C03Hooks(E, found, R1, bind_ret))
 
     # ---- R-C03-1, loop side
     inst = 'loop closure of %s %s [%s]' % (f['q'].replace('rkcommon::tasking::', ''), f['fty'], tu.config)
     E.count(R1)
     if not calls:
         ctx.broken('R-C03-1: no call of the user body found in the loop closure (%s)' % tu.fn_loc(op))
-    for node, pub, chk, at in calls:
+    for node, pub, chk, where in calls:
         if pub and chk == 1:
             continue
         if not pub:
             found.viol(R1, CLOSURE, 'body-call-unpublished', 'the user body is called on a path where insideLoopBody is not '
-                       'published (true): stop() reads false and returns while the body runs', node, at)
+                       'published (true): stop() reads false and returns while the body runs', node, where=where)
         elif chk == 2:
             found.viol(R1, CLOSURE, 'weak-memory-order', 'shouldBeRunning is re-read after the publication, but not with a seq_cst '
-                       'load: the store/load pairs of the handshake are then not totally ordered', node, at)
+                       'load: the store/load pairs of the handshake are then not totally ordered', node, where=where)
         elif pub == 2:
             found.und(R1, 'insideLoopBody is published inside a critical section without a later re-check of shouldBeRunning: a '
                       'mutex-based stop protocol, not modelled', node)
@@ -469,7 +527,7 @@ def check_loop_closure(E, f, lam, op):
             found.viol(R1, CLOSURE, 'body-call-before-recheck', 'at the call of the user body insideLoopBody is published, but '
                        'shouldBeRunning was not read (true) *after* the publication: the loop checks, then publishes. stop() can '
                        'store shouldBeRunning = false, read insideLoopBody == false and return in between; the body then starts '
-                       'after stop() has returned', node, at)
+                       'after stop() has returned', node, where=where)
 
     # ---- wait sites: R-C03-2 and R-C03-3
     nsites = len({w[0][5]['id'] for w in waits})
@@ -477,27 +535,40 @@ def check_loop_closure(E, f, lam, op):
     E.count(R3, 2 * nsites)
     if not waits:
         ctx.broken('R-C03-3: the loop closure contains no condition_variable wait (%s)' % tu.fn_loc(op))
-    for ev, st, at in waits:
+    for ev, st, where in waits:
         _k, cv, lv, pred, flavour, node = ev
-        pub, chk, toks, locks, known, tested, bvals = st
+        pub, chk, toks, locks, known, obs, bvals = st
         if pub:
             found.viol(R2, CLOSURE, 'waits-while-published', 'the loop thread can block in %s() while insideLoopBody is still true: '
-                       'stop() then spins until the next start()' % flavour, node, at)
+                       'stop() then spins until the next start()' % flavour, node, where=where)
         if cv != CV:
             found.und(R3, 'wait on a condition variable other than %s' % CV[1], node)
             continue
         m = LockState.holder_of(locks, lv)
         if m != MTX:
             found.viol(R3, CLOSURE, 'wait-lock-mismatch', 'wait() is called with a lock that does not hold %s at that point (holds: %s); '
-                       'the stores that wake the loop are made under %s' % (MTX[1], m[1] if m else 'nothing', MTX[1]), node, at)
+                       'the stores that wake the loop are made under %s' % (MTX[1], m[1] if m else 'nothing', MTX[1]), node, where=where)
             continue
         if pred is None:
-            if flavour == 'wait' and not tested:
+            # hand-expanded predicate: the thread blocks only on paths where, holding the mutex without interruption, it
+            # has seen shouldBeRunning == false and threadShouldBeAlive == true (`while (!pred) wait(lock)` is one such form;
+            # what happens after the wake-up is irrelevant for a lost wake-up, the surrounding loop re-tests)
+            if flavour != 'wait':
+                found.und(R3, 'timed wait without predicate: not modelled', node)
+            elif not obs:
                 found.viol(R3, CLOSURE, 'wait-without-predicate', 'wait(lock) without a predicate, and the flags are not re-tested '
                            'under the mutex before blocking: a start() or destructor that runs between the loop\'s unlocked '
-                           'check and the wait is lost', node, at)
+                           'check and the wait is lost', node, where=where)
             else:
-                found.und(R3, 'hand-written wait loop / timed wait without predicate: not modelled', node)
+                if (RUN, False) not in obs:
+                    found.viol(R3, CLOSURE, 'predicate-ignores-' + RUN[1], 'the thread can block in wait(lock) without having seen '
+                               'shouldBeRunning == false under the mutex: a start() that already happened is not noticed',
+                               node, where=where)
+                if (ALIVE, True) not in obs:
+                    found.viol(R3, CLOSURE, 'predicate-ignores-' + ALIVE[1], 'the thread can block in wait(lock) without having seen '
+                               'threadShouldBeAlive == true under the mutex: a destructor that already ran is not noticed and '
+                               'join never returns', node, where=where)
+                E.enabling |= {(fl, not v) for (fl, v) in obs}
             continue
         pe = predicate_enabling(E, pred)
         if pe is None:
@@ -508,14 +579,14 @@ def check_loop_closure(E, f, lam, op):
         en = implied
         if (RUN, True) not in en:
             found.viol(R3, CLOSURE, 'predicate-ignores-' + RUN[1], 'shouldBeRunning == true does not imply the wait predicate: '
-                       'start() cannot (always) wake the loop', node, at)
+                       'start() cannot (always) wake the loop', node, where=where)
         if (ALIVE, False) not in en:
             found.viol(R3, CLOSURE, 'predicate-ignores-' + ALIVE[1], 'threadShouldBeAlive == false does not imply the wait predicate: '
-                       'the destructor cannot (always) wake the loop and join never returns', node, at)
+                       'the destructor cannot (always) wake the loop and join never returns', node, where=where)
     emit(ctx, tu, g, res, found, inst, (R1, R2, R3), tu.fn_loc(op),
          {R1: 'body called only after store(insideLoopBody,true) followed by load(shouldBeRunning)==true, all seq_cst',
           R2: 'insideLoopBody is false at every wait()',
-          R3: 'predicate wait on a unique_lock of runningMutex; predicate implied by shouldBeRunning and by !threadShouldBeAlive'})
+          R3: 'waits on a unique_lock of runningMutex; blocks only if !shouldBeRunning && threadShouldBeAlive was evaluated under it'})
     return found
 
 
@@ -526,7 +597,7 @@ def check_stop(E):
     ctx, tu, sy = E.ctx, E.tu, E.sy
     f = E.stop
     g = tu.cfg(f)
-    found = Found()
+    found = Found(E.inl)
     cur = {}
     FN = 'AsyncLoop::stop'
 
@@ -549,15 +620,14 @@ def check_stop(E):
                     found.und(R1, 'store of a non-constant value to shouldBeRunning in stop()', node)
                     return [st]
                 if val:
-                    found.viol(R1, FN, 'sets-running', 'stop() stores shouldBeRunning = true', node, cur.get('at'))
+                    found.viol(R1, FN, 'sets-running', 'stop() stores shouldBeRunning = true', node)
                     return [(None, False, 0, frozenset())]
                 if order != SEQ_CST:
                     found.viol(R1, FN, 'weak-memory-order', 'stop() clears shouldBeRunning with %s; the handshake needs a seq_cst '
-                               'store' % oname(order), node, cur.get('at'))
+                               'store' % oname(order), node)
                 return [(None, True, 0, frozenset())]
             if fld == INSIDE:
-                found.viol(R1, FN, 'writes-insideLoopBody', 'stop() writes insideLoopBody, which belongs to the loop thread', node,
-                           cur.get('at'))
+                found.viol(R1, FN, 'writes-insideLoopBody', 'stop() writes insideLoopBody, which belongs to the loop thread', node)
             return [st]
         if kind == 'load':
             _k, fld, order, node = ev
@@ -593,9 +663,9 @@ def check_stop(E):
                 q = 1 if t[2] == 1 else (q or 2)
         return [(runv, cleared, q, toks)]
 
-    res = g.explore([(None, False, 0, frozenset())], transfer, refine)
+    res, outs = E.inl.explore(f, [(None, False, 0, frozenset())], transfer, refine, C03Hooks(E, found, R1))
     E.count(R1)
-    for (st, via) in res.exits:
+    for (st, _rv, via) in outs:
         runv, cleared, q, toks = st
         if g.blocks[via].noret:
             continue
@@ -627,7 +697,7 @@ def check_stop(E):
 def check_signals(E, f, label, fnkey):
     ctx, tu, sy = E.ctx, E.tu, E.sy
     g = tu.cfg(f)
-    found = Found()
+    found = Found(E.inl)
     cur = {}
     nstores = set()
 
@@ -655,7 +725,7 @@ def check_signals(E, f, label, fnkey):
                 if not LockState.holds(locks, MTX):
                     found.viol(R3, fnkey, 'store-%s-outside-lock' % fld[1], 'the store %s = %s can turn the loop\'s wait predicate true '
                                'but is made outside a lock scope of %s: it can fall between the waiter\'s predicate test and its '
-                               'blocking, and the notify is lost' % (fld[1], str(val).lower(), MTX[1]), node, cur.get('at'))
+                               'blocking, and the notify is lost' % (fld[1], str(val).lower(), MTX[1]), node)
                 if not (nscope and LockState.holds(locks, MTX)):
                     owe = frozenset(set(owe) | {fld[1]})
             return [(locks, known, owe, nscope)]
@@ -665,8 +735,8 @@ def check_signals(E, f, label, fnkey):
             return [st]
         return [st]
 
-    res = g.explore([(frozenset(), frozenset(), frozenset(), False)], transfer, None)
-    for (st, via) in res.exits:
+    res, outs = E.inl.explore(f, [(frozenset(), frozenset(), frozenset(), False)], transfer, None, C03Hooks(E, found, R3))
+    for (st, _rv, via) in outs:
         if g.blocks[via].noret:
             continue
         for fld in sorted(st[2]):
@@ -684,7 +754,7 @@ def check_start(E):
     ctx, tu, sy = E.ctx, E.tu, E.sy
     f = E.start
     g = tu.cfg(f)
-    found = Found()
+    found = Found(E.inl)
     FN = 'AsyncLoop::start'
 
     # state: (runv, setflag, toks)
@@ -721,9 +791,9 @@ def check_start(E):
             runv = truth
         return [(runv, setf, toks)]
 
-    res = g.explore([(None, False, frozenset())], transfer, refine)
+    res, outs = E.inl.explore(f, [(None, False, frozenset())], transfer, refine, C03Hooks(E, found, R3))
     E.count(R3)
-    for (st, via) in res.exits:
+    for (st, _rv, via) in outs:
         runv, setf, toks = st
         if g.blocks[via].noret or setf or runv is True:
             continue
@@ -741,7 +811,7 @@ def check_dtor(E):
     ctx, tu, sy = E.ctx, E.tu, E.sy
     f = E.dtor
     g = tu.cfg(f)
-    found = Found()
+    found = Found(E.inl)
     cur = {}
     FN = 'AsyncLoop::~AsyncLoop'
     TH = E.thread_field
@@ -774,7 +844,7 @@ def check_dtor(E):
                 return [(locks, known, True, not (nscope and LockState.holds(locks, MTX)), nscope, j, toks)]
             if fld == INSIDE:
                 found.viol(R1, FN, 'writes-insideLoopBody', 'the destructor writes insideLoopBody, which belongs to the loop thread',
-                           node, cur.get('at'))
+                           node)
             return [st]
         if kind == 'notify' and ev[1] == CV:
             return [(locks, known, cleared, False, nscope or LockState.holds(locks, MTX), j, toks)]
@@ -789,15 +859,15 @@ def check_dtor(E):
                     if j != 'Y':
                         found.viol(R4, FN, 'join-unguarded', 'join() is called on a path where joinable() was not observed true; with '
                                    'the TASK launch the thread member is empty and join() throws inside the (noexcept) destructor',
-                                   node, cur.get('at'))
+                                   node)
                     if not cleared or owe:
                         found.viol(R4, FN, 'join-before-signal', 'join() is reached before threadShouldBeAlive was cleared and the '
                                    'waiter notified: the loop thread never leaves its loop and the destructor never returns',
-                                   node, cur.get('at'))
+                                   node)
                     return [(locks, known, cleared, owe, nscope, 'J', toks)]
                 if name == 'detach':
                     found.viol(R4, FN, 'detach', 'the destructor detaches the loop thread instead of joining it: a body invocation can '
-                               'run or begin after the AsyncLoop is destroyed', node, cur.get('at'))
+                               'run or begin after the AsyncLoop is destroyed', node)
                     return [(locks, known, cleared, owe, nscope, 'J', toks)]
                 found.und(R4, 'operation %s on the thread member: not modelled' % name, node)
                 return [st]
@@ -816,9 +886,9 @@ def check_dtor(E):
             j = 'Y' if truth else 'N'
         return [(locks, known, cleared, owe, nscope, j, toks)]
 
-    res = g.explore([(frozenset(), frozenset(), False, False, False, '?', frozenset())], transfer, refine)
+    res, outs = E.inl.explore(f, [(frozenset(), frozenset(), False, False, False, '?', frozenset())], transfer, refine, C03Hooks(E, found, R4))
     E.count(R4)
-    for (st, via) in res.exits:
+    for (st, _rv, via) in outs:
         if g.blocks[via].noret:
             continue
         locks, known, cleared, owe, nscope, j, toks = st
@@ -837,7 +907,7 @@ def check_dtor(E):
 def check_ctor(E, f, closures):
     ctx, tu, sy = E.ctx, E.tu, E.sy
     g = tu.cfg(f)
-    found = Found()
+    found = Found(E.inl)
     cur = {}
     FN = 'AsyncLoop::AsyncLoop'
     lam_ids = {lam['id'] for lam, _op in closures}
@@ -885,26 +955,25 @@ def check_ctor(E, f, closures):
                 return launch(st, 'thread')
         if is_body_call(tu, n, f['params'][0]['id']):
             found.viol(R1, FN, 'body-called-by-constructor', 'the constructor itself invokes the user body, outside the loop thread and '
-                       'its handshake', n, cur.get('at'))
+                       'its handshake', n)
         if k in ('CXXMemberCallExpr', 'CXXOperatorCallExpr'):
             a = sy.atomic_op(n)
             if a is not None and a['op'] in ('store', 'rmw') and a['field'] == INSIDE:
-                found.viol(R1, FN, 'writes-insideLoopBody', 'the constructor writes insideLoopBody, which belongs to the loop thread', n,
-                           cur.get('at'))
+                found.viol(R1, FN, 'writes-insideLoopBody', 'the constructor writes insideLoopBody, which belongs to the loop thread', n)
         if k == 'CXXMemberCallExpr' and s.get('rec') == 'std::thread':
             _s, obj, _a = tu.call_parts(n)
             if obj is not None and sy.field(obj) == E.thread_field and last(s.get('q')) in ('detach', 'join'):
                 found.viol(R4, FN, 'thread-' + last(s.get('q')), 'the constructor calls %s() on the thread member: the destructor can no '
-                           'longer join the loop thread' % last(s.get('q')), n, cur.get('at'))
+                           'longer join the loop thread' % last(s.get('q')), n)
         if k in CALLS:
             cf = tu.callee_fn(n)
             if cf is not None and cf.get('rec') == LOOP:
                 found.und(R4, 'call of the AsyncLoop member %s: helper calls are not modelled' % cf['q'], n)
         return [st]
 
-    res = g.explore([None], transfer, None)
+    res, outs = E.inl.explore(f, [None], transfer, None, C03Hooks(E, found, R4))
     E.count(R4)
-    for (st, via) in res.exits:
+    for (st, _rv, via) in outs:
         if g.blocks[via].noret:
             continue
         ents = [k for k in res.pred if k[0] == via]
@@ -968,8 +1037,8 @@ def dtor_always_stores(E, field, value):
             return [ev[2] is value]
         return [st]
 
-    res = g.explore([False], transfer, None)
-    return all(st for (st, via) in res.exits if not g.blocks[via].noret)
+    _res, outs = E.inl.explore(E.dtor, [False], transfer, None, Hooks())
+    return all(st for (st, _rv, _via) in outs)
 
 
 def check_loop_exit(E, f, lam, op):
